@@ -2,7 +2,7 @@
 from vf.driver import contract_units
 
 LEVEL = "other"
-MODULES = ["contracts.c_access", "contracts.c_engine", "contracts.c_request"]
+MODULES = ["contracts.c_access", "contracts.c_engine", "contracts.c_request", "contracts.c_response_ctors"]
 EXPLANATION = ("Decided here, GIVEN that SQLite AUTOINCREMENT row ids are strictly increasing across deletes "
                "and restarts: identifiers are the AUTOINCREMENT integer primary key of the base table "
                "(structural facts), no engine function assigns unique_identifier (frame scan), each creating "
